@@ -15,7 +15,7 @@
    accepted by the closability analysis [well_posed] (DESIGN.md section 7/C06) -- C06_complete.
    The implementation-level oracle checks completion on every generated case. *)
 From Coq Require Import List ZArith QArith Ascii String Bool.
-From GBS Require Import Model.PyStr Model.Num Model.Bond Model.Select Model.Gen Proofs.BondP Proofs.GenP Proofs.GenFuel Props.GenExample Src.SrcGen Proofs.GenSrcP.
+From GBS Require Import Model.PyStr Model.Num Model.Bond Model.Select Model.Gen Proofs.BondP Proofs.GenP Proofs.GenFuel Props.GenExample Src.SrcGen Proofs.GenSrcP Proofs.GenMolSrcP.
 Import ListNotations.
 
 Theorem C06_all_used_partial : forall els pk tg g infos st,
@@ -59,6 +59,12 @@ Print Assumptions C06_token_generate_is_source.
 Theorem C06_finalize_is_source : forall s ei g st, finalize_src s ei g st = finalize s ei g st.
 Proof. exact finalize_is_source. Qed.
 Print Assumptions C06_finalize_is_source.
+
+(* Molecule.generate as a whole, rebuilt from the source, is the generator model: every theorem of C04-C08 about run_gen (all inputs, pick
+   streams and targets) is a theorem about run_gen_src *)
+Theorem C06_generation_is_source : forall els pk tg, run_gen_src els pk tg = run_gen els pk tg.
+Proof. exact run_gen_is_source. Qed.
+Print Assumptions C06_generation_is_source.
 
 Example C06_example :
   match run_gen ex1_els ex1_picks ex1_targets with
